@@ -407,17 +407,20 @@ theorem fixIn_setInputs (c : Circuit) (ins : List Label) : (fixIn c).setInputs i
   rw [h1, h2]
   rfl
 
-/-- **every right connection keeps the invariant**: `connect_circuit(right_connect=True)`, hence
-`connect_right`, `connect_inputs` and `extend_circuit(right_connect=True)` -/
-theorem connectRight_wfs {c other c' : Circuit} {thisC otherC : List Label} {name : Label} {addP : Bool}
-    (hw : WFS c) (hwo : WFS other) (h : c.connectCircuit other thisC otherC true name addP = .ok c') : WFS c' := by
-  obtain ⟨order, st, hts, hfold, hfin, _, hnd, hlen, hty, hex, hexo⟩ := connect_right_unfold h
+/-- the invariant of the state after the loop of a right connection (input list recomputed) -/
+theorem connRight_loop_kinv {c other : Circuit} {thisC otherC : List Label} {pre : String} {order : List Label} {st : ConnSt}
+    (hw : WFS c) (hwo : WFS other) (hndt : thisC.Nodup)
+    (hty : ∀ l ∈ thisC, (c.find? l).map (·.ty) = some INPUT) (hex : ∀ l ∈ thisC, l ∈ c.labels)
+    (hexo : ∀ l ∈ otherC, l ∈ other.labels)
+    (hts : other.topSort true = .ok order)
+    (hfold : order.foldl (connStep other (connMapping thisC otherC) pre true)
+      (.ok ⟨c, connMapping thisC otherC, []⟩) = .ok st) :
+    ∃ rO, RKInv other (connMapping thisC otherC) rO order st := by
   have hwg : WFG other := hwo.toWFG
   obtain ⟨order', ho1, hperm, hord⟩ := topSort_inv_spec hwg
   rw [hts] at ho1
   cases ho1
   have hndo : order.Nodup := hperm.nodup_iff.mpr hwo.nodup
-  have hndt : thisC.Nodup := (nodupL_iff _).mp hnd
   have hmz : ∀ k x, Dict.get? (connMapping thisC otherC) k = some x → (k, x) ∈ otherC.zip thisC := by
     intro k x hk
     rcases get?_zipFold_mem_zip _ _ k x hk with h1 | h1
@@ -477,12 +480,20 @@ theorem connectRight_wfs {c other c' : Circuit} {thisC otherC : List Label} {nam
       have hh : ∃ k, Dict.get? (connMapping thisC otherC) k = some lbl := ⟨k, hk⟩
       rw [dif_pos hh]
       rw [hinj _ _ _ (Classical.choose_spec hh) hk]
-  have kinv := connLoopR_kinv (pre := connPre name addP) hwo.inputOps hrO hinj order [] _ st (by simpa using hndo)
+  have kinv := connLoopR_kinv (pre := pre) hwo.inputOps hrO hinj order [] _ st (by simpa using hndo)
     (by
       intro cur hcur g hf o ho p q hpq
       obtain ⟨hgm, hgl⟩ := find_some_mem hf
       exact hord p cur q (by simpa using hpq) g hgm hgl o ho)
     k0 hfold
+  exact ⟨rO, by simpa using kinv⟩
+
+/-- **every right connection keeps the invariant**: `connect_circuit(right_connect=True)`, hence
+`connect_right`, `connect_inputs` and `extend_circuit(right_connect=True)` -/
+theorem connectRight_wfs {c other c' : Circuit} {thisC otherC : List Label} {name : Label} {addP : Bool}
+    (hw : WFS c) (hwo : WFS other) (h : c.connectCircuit other thisC otherC true name addP = .ok c') : WFS c' := by
+  obtain ⟨order, st, hts, hfold, hfin, _, hnd, hlen, hty, hex, hexo⟩ := connect_right_unfold h
+  obtain ⟨rO, kinv⟩ := connRight_loop_kinv hw hwo ((nodupL_iff _).mp hnd) hty hex hexo hts hfold
   -- the tail
   unfold connFinish at hfin
   simp only at hfin
